@@ -212,8 +212,14 @@ Definition set_unfollowed (r : rl) u := {| r_open := r_open r; r_q := r_q r; r_v
 Definition set_last (r : rl) a := {| r_open := r_open r; r_q := r_q r; r_verifier := r_verifier r; r_record := r_record r; r_last := a; r_unfollowed := r_unfollowed r |}.
 Definition set_record (r : rl) t := {| r_open := r_open r; r_q := r_q r; r_verifier := r_verifier r; r_record := t; r_last := r_last r; r_unfollowed := r_unfollowed r |}.
 
-(* SetRemoteOnline *)
+(* SetRemoteOnline.  Going online (false -> true): the remote queue is cleared (remoteQueue.clear(): items
+   left over from an earlier response of a paused request, and lastConsumed; fix commit cb5b48f) and a fresh
+   verifier over the current record is created. *)
 Definition set_online (b : bool) (r : rl) : rl :=
+  let r' := {| r_open := b; r_q := r_q r; r_verifier := r_verifier r; r_record := r_record r; r_last := r_last r; r_unfollowed := r_unfollowed r |} in
+  if b && negb (r_open r) then set_verifier (set_q r' rq_empty) (Some (new_verifier (r_record r))) else r'.
+(* the code before that fix: the queue survived *)
+Definition set_online_before_fix (b : bool) (r : rl) : rl :=
   let r' := {| r_open := b; r_q := r_q r; r_verifier := r_verifier r; r_record := r_record r; r_last := r_last r; r_unfollowed := r_unfollowed r |} in
   if b && negb (r_open r) then set_verifier r' (Some (new_verifier (r_record r))) else r'.
 
